@@ -100,6 +100,30 @@ def sharing_shapes():
     out.append(("object-local-fields-manifest-1", ("obj", [("olocal", ("bind", "l", T("OL", N(1)))), F("f", V("l")), F("g", V("l")), F("h", add(V("l"), V("l")))])))
     out.append(("object-local-method-1", ("local", [("bind", "o", ("obj", [("olocal", ("bind", "l", T("OL", N(1)))), ("field", ("fixed", "m"), False, ":", [("x", None)], add(V("l"), V("x"))), F("f", V("l"))]))],
                                           add(("apply", IDX(V("o"), "m"), [N(1)], [], False), ("apply", IDX(V("o"), "m"), [N(2)], [], False), IDX(V("o"), "f")))))
+    # one object literal with object-level locals used as a layer of two objects: the local is evaluated once per
+    # object it is part of, in whatever order the fields of the two objects are read
+    mixin = lambda: ("obj", [("olocal", ("bind", "l", T("OL", N(1)))), F("a", V("l")), F("b", add(V("l"), N(1))), F("c", add(V("l"), V("l")))])
+    reads = {
+        "interleaved": [("o1", "a"), ("o2", "a"), ("o1", "b"), ("o2", "b")],
+        "interleaved-3": [("o1", "a"), ("o2", "b"), ("o1", "c"), ("o2", "a"), ("o1", "b"), ("o2", "c")],
+        "grouped": [("o1", "a"), ("o1", "b"), ("o2", "a"), ("o2", "b")],
+        "same-field": [("o1", "a"), ("o2", "a"), ("o1", "a"), ("o2", "a")],
+    }
+    for rn, rs in reads.items():
+        out.append(("shared-literal-value-%s-1" % rn,
+                    ("local", [("bind", "m", mixin())],
+                     ("local", [("bind", "o1", ("bin", "+", ("obj", [F("p", N(1))]), V("m"))), ("bind", "o2", ("bin", "+", ("obj", [F("p", N(2))]), V("m")))],
+                      ("arr", [IDX(V(o), f) for o, f in rs])))))
+        out.append(("shared-literal-function-%s-1" % rn,
+                    ("local", [("bind", "mk", ("fn", [("base", None)], ("objext", V("base"), mixin())))],
+                     ("local", [("bind", "o1", ("apply", V("mk"), [("obj", [F("p", N(1))])], [], False)),
+                                ("bind", "o2", ("apply", V("mk"), [("obj", [F("p", N(2))])], [], False))],
+                      ("arr", [IDX(V(o), f) for o, f in rs])))))
+        out.append(("shared-literal-three-objects-%s-1" % rn,
+                    ("local", [("bind", "m", mixin())],
+                     ("local", [("bind", "o1", ("bin", "+", ("obj", [F("p", N(1))]), V("m"))), ("bind", "o2", ("bin", "+", V("m"), ("obj", [F("q", N(2))]))),
+                                ("bind", "o3", V("m"))],
+                      ("arr", [IDX(V(o), f) for o, f in rs] + [IDX(V("o3"), "a"), IDX(V("o1"), "c"), IDX(V("o3"), "b")])))))
     # unneeded positions, every bomb kind
     for i, b in enumerate(BOMBS):
         out.append(("unused-local-%d" % i, ("local", [("bind", "u", b)], N(1))))
@@ -137,6 +161,18 @@ def sharing_shapes():
         out.append(("get-unused-default-%d" % i, prog.STD("get", ("obj", [F("a", N(1))]), S("a"), b)))
         out.append(("mergePatch-unread-field-%d" % i, IDX(prog.STD("mergePatch", ("obj", [F("a", b), F("b", N(1))]), ("obj", [F("c", N(2))])), "b")))
         out.append(("tailstrict-forces-%d" % i, ("apply", ("fn", [("a", None), ("b", None)], V("a")), [N(1), b], [], True)))
+        # building an object evaluates its computed field names: an unneeded object with such a name must not be built
+        dyn = ("obj", [("field", ("dyn", b), False, ":", None, N(1))])
+        out.append(("unused-arg-computed-name-%d" % i, ("apply", ("fn", [("a", None), ("b", None)], V("a")), [N(1), dyn], [], False)))
+        out.append(("unused-named-arg-computed-name-%d" % i, ("apply", ("fn", [("a", None), ("b", N(0))], V("a")), [N(1)], [("b", dyn)], False)))
+        out.append(("unused-local-computed-name-%d" % i, ("local", [("bind", "u", dyn)], N(1))))
+        out.append(("unread-elem-computed-name-%d" % i, ("index", ("arr", [dyn, N(1)]), N(1))))
+        out.append(("unread-field-computed-name-%d" % i, IDX(("obj", [F("a", dyn), F("b", N(1))]), "b")))
+        out.append(("get-unused-default-computed-name-%d" % i, prog.STD("get", ("obj", [F("a", N(1))]), S("a"), dyn)))
+        out.append(("untaken-branch-computed-name-%d" % i, ("if", ("lit", "true"), N(1), dyn)))
+        out.append(("overridden-default-computed-name-%d" % i, ("apply", ("fn", [("a", dyn)], V("a")), [N(1)], [], False)))
+        dup = ("obj", [F("k", N(1)), ("field", ("dyn", S("k")), False, ":", None, b)])
+        out.append(("unused-arg-duplicate-field-%d" % i, ("apply", ("fn", [("a", None), ("b", None)], V("a")), [N(1), dup], [], False)))
     return out
 
 
